@@ -194,6 +194,23 @@ def run(ctx):
                 if set(got) != {tuple('I' * n)} or abs(got[tuple('I' * n)] - 1) > 1e-9:
                     ctx.fail('PauliMonomial.inverse', 'M @ M.inverse() is not the identity for phase indicator %d (such an operator squares to %s identity)' % (k, 'minus' if k % 2 else 'plus'),
                              dict(a=a, phase=k, c=str(cf), got={''.join(x): str(v) for x, v in got.items()}))
+    # strings stored in other integer dtypes (signed and unsigned, e.g. from numpy.unpackbits): same products
+    for _ in range(ctx.budget(80, 1000)):
+        n = rng.choice([1, 2, 3, 5])
+        a, b = G.rand_op(rng, n), G.rand_op(rng, n)
+        da, db = rng.choice([np.int8, np.int32, np.int64, np.uint8, np.uint16, np.uint64]), rng.choice([np.int8, np.int32, np.int64, np.uint8, np.uint16, np.uint64])
+        if np.result_type(da, db).kind not in 'iu':
+            db = da
+        ctx.case(('dtype', a, b, da.__name__, db.__name__), True, sample=dict(op='matmul dtypes', left=da.__name__, right=db.__name__))
+        ctx.count('dtype:' + ('unsigned' if 'uint' in da.__name__ + db.__name__ else 'signed'))
+        try:
+            pr = pc.Pauli(np.array(O.to_g(a[0]), dtype=da), a[1]) @ pc.Pauli(np.array(O.to_g(b[0]), dtype=db), b[1])
+            raw = [int(v) for v in pr.g]
+            got = O.from_gp(raw, pr.p) if all(v in (0, 1) for v in raw) else ('non-binary string', raw)
+        except Exception as e:
+            ctx.fail('Pauli.__matmul__', 'implementation raised %r for strings of dtype %s, %s' % (e, da.__name__, db.__name__), dict(a=a, b=b)); continue
+        if got != O.omul(a, b):
+            ctx.fail('Pauli.__matmul__', 'product of operators whose strings are stored as %s and %s is not the matrix product: %s' % (da.__name__, db.__name__, str(got)[:120]), dict(a=a, b=b, want=O.omul(a, b)))
     # ---- histories: operands that have been multiplied before and changed in place since (caches, aliasing)
     for _ in range(ctx.budget(120, 1500)):
         n = rng.choice([1, 2, 3, 4, 6])
